@@ -1,10 +1,10 @@
 import numpy as np, collections, random, warnings, re
 warnings.simplefilter('ignore')
 from npstructures import HashTable, Counter, HashSet
-exec(open('c11.py').read().split("for it in range(30000):")[0])
+exec(open('c11.py').read().split('for it in range(int(')[0])
 random.seed(29)
 buckets = collections.defaultdict(list)
-for it in range(30000):
+for it in range(int(__import__("os").environ.get("RECON_N", 30000))):
     dt=random.choice(kdts); keys=rand_keys(dt); n=len(keys); ii=np.iinfo(dt)
     mod=random.choice([None,None,1,2,3,7,n,2*n+1,101]); 
     if mod is not None and mod>ii.max: mod=None
